@@ -2,6 +2,7 @@
    stdin: one case per line (same language as harness/val_hash.c):
      M <hex>            -> h=<dec>
      V <term> <term>    -> cmp=<ab>,<ba> ha=<dec> hb=<dec> wf=<0|1> cp=<..> as=<..> sw=<..>
+     W <term> <op>=<term> ...  -> h=<dec> | h=<dec> | ...   (hash of the value after each step)
    cmp: sign, E when the model has no result (the C call raises or the combination is not modelled),
         n for a non-zero result when a map is involved (only equality of maps is modelled).
    cp/as/sw: what the MODEL says about copy(a), assign(b', a), swap(a, b):  1 = result eq to the
@@ -108,4 +109,13 @@ let () =
         print_endline (Printf.sprintf "cmp=%s,%s ha=%s hb=%s wf=%d cp=%s as=%s sw=%s"
           (cmp_s a b) (cmp_s b a) (n_to_dec (h_hash a)) (n_to_dec (h_hash b))
           (if h_wf a && h_wf b then 1 else 0) cp asg sw)
+    end else if n >= 2 && line.[0] = 'W' && line.[1] = ' ' then begin
+      (* value history: the model's hash of the value the object must have after each step
+         (the term on the right of '='; the first token is the initial value) *)
+      let toks = List.filter (fun t -> t <> "") (String.split_on_char ' ' (String.sub line 2 (n - 2))) in
+      let hs = List.mapi (fun i t ->
+        let src = if i = 0 then t else
+          (match String.index_opt t '=' with Some j -> String.sub t (j + 1) (String.length t - j - 1) | None -> "") in
+        (try "h=" ^ n_to_dec (h_hash (parse_term src (ref 0))) with _ -> "BADTERM")) toks in
+      print_endline (String.concat " | " hs)
     end else print_endline "BADCASE")
